@@ -43,6 +43,11 @@ GsxQueries  == { Q(Index("gsx"), "g", gv, sc, f, fwd) : gv \in {GP, GQ},
 GixQueries  == { Q(Index("gix"), "g", gv, <<>>, f, fwd) : gv \in {GP, GQ}, f \in FilterMenu, fwd \in BOOLEAN }
 Scans == { ScanOp("c1", T1, ix, f[1], <<>>, f[2]) : ix \in {NoIndex, Index("gix"), Index("gsx")}, f \in ScanFilters }
 
+\* reads with a ProjectionExpression (key attributes always among the projected ones): answered whole or cut down, and pure
+Projected == { Scans2 @@ [proj |-> pr] : Scans2 \in { ScanOp("c1", T1, ix, NoFilter, <<>>, <<>>) : ix \in {NoIndex, Index("gsx")} },
+                                        pr \in { <<"h", "r", "v">>, <<"h", "r", "g", "s", "zz">> } }
+             \cup { Q(NoIndex, "h", Str(A), <<>>, <<NoFilter, <<>>>>, fwd) @@ [proj |-> <<"h", "r", "v">>] : fwd \in BOOLEAN }
+             \cup { Q(Index("gsx"), "g", GP, <<>>, <<NoFilter, <<>>>>, TRUE) @@ [proj |-> <<"h", "r", "g", "s">>] }
 WalkShapes == { ScanOp("c1", T1, ix, f[1], <<>>, f[2]) : ix \in {NoIndex, Index("gix"), Index("gsx")}, f \in FilterMenu }
               \cup { Q(NoIndex, "h", Str(A), <<>>, <<NoFilter, <<>>>>, fwd) : fwd \in BOOLEAN }
               \cup { Q(NoIndex, "h", Str(A), <<>>, <<Cond(Cmp("=", Path("v"), Val(":one"))), V1>>, TRUE) }
@@ -52,7 +57,7 @@ Walks == { WalkOp(q, lim, del) : q \in WalkShapes, lim \in 1..3, del \in BOOLEAN
 
 SetupDef == << AddTable("c1", T1, "h", "r"), AddIndex("c1", T1, "gix", "g", ""), AddIndex("c1", T1, "gsx", "g", "s") >>
 MenuDef == SetToSeq( { Put(T1, it) : it \in Items } \cup { Del(T1, k, FALSE) : k \in Keys } )
-           \o (IF WithReads THEN SetToSeq(BaseQueries) \o SetToSeq(GsxQueries) \o SetToSeq(GixQueries) \o SetToSeq(Scans) ELSE <<>>)
+           \o (IF WithReads THEN SetToSeq(BaseQueries) \o SetToSeq(GsxQueries) \o SetToSeq(GixQueries) \o SetToSeq(Scans) \o SetToSeq(Projected) ELSE <<>>)
            \o (IF WithWalks THEN SetToSeq(Walks) ELSE <<>>)
 BoundDef(d) == TRUE
 =============================================================================
